@@ -202,7 +202,7 @@ def shrink(f):
 
     def still(cand):
         for x in check_document([cand], argv, runner.Stats(), "shrink"):
-            if x.kind == f.kind:
+            if x.bucket == f.bucket:
                 return x
         return None
     return shrink_block(instrs, still, budget_s=15) or f
